@@ -109,6 +109,12 @@ def answer (toks : List String) : String :=
     | some st =>
       s!"{showBoolMat (toMat st.A N N)}|{showPairs (edgeList N A)}|{(edgeList N A).length}|{showDone st.i iters.toNat!}"
   | ["rnd32", xs] => showInts ((ints xs).map rnd32)
+  | ["rnd64", xs] => showRats ((rats xs).map rnd64)
+  | ["rnd32q", xs] =>
+    -- binary32 rounding of arbitrary rationals: `rndQ 24` in units of `2^-149`, sign restored
+    showRats ((rats xs).map fun (x : Rat) =>
+      let u : Rat := ((2 ^ 149 : Nat) : Rat)
+      if x < 0 then -((rndQ 24 (-x * u) : Nat) : Rat) / u else ((rndQ 24 (x * u) : Nat) : Rat) / u)
   | ["drawD", ks, e] =>
     showInts ((nats ks).map fun (k : Nat) =>
       Pyunicorn.Generated.StructC17.geoDrawR rnd64 ((k : Rat) / 9007199254740992) e.toInt!)
